@@ -96,4 +96,4 @@ def NOT_APPLICABLE(checks):
 NOTES = ("All checks are property-based tests / fuzzers over generated inputs, call histories, schedules and fault sequences with explicit oracles (see DESIGN.md). "
          "./check <ID> <tier> rebuilds the harness against /repo's working tree with -tags verif, replays replays/<ID>/*.json first, then searches. "
          "Exit 1 + VIOLATION line = a failing case was found (stored under work/violations/<ID>/, replayable with ./check --replay); exit 2 = inconclusive infrastructure trouble, never a verdict. "
-         "known_findings.json lists 16 witnesses of 10 genuine defects, all repaired by fix: commits in /repo; none is suppressed.")
+         "known_findings.json lists 19 witnesses of 12 genuine defects, all repaired by fix: commits in /repo; none is suppressed.")
